@@ -162,13 +162,19 @@ fn main() {
             mismatch("sleepy", i, format!("took {} ms of real time: the sleeps were real", real_ms));
         }
         total.add(&r.stats);
-        // -- the incorrect program: must be caught under some schedule --
-        let r = under_sim(s ^ 9, || bbtarget::slot_claim(12, 2, false));
-        racy_schedules += 1;
-        if r.value > 0 {
-            racy_clashes += 1;
+        // -- the incorrect program: must be caught under some schedule (about one in eight does) --
+        for j in 0..8u64 {
+            if i * 8 + j >= 160 && racy_clashes > 0 {
+                break;
+            }
+            let r = under_sim(s ^ 9 ^ (j << 32), || bbtarget::slot_claim(12, 2, false));
+            racy_schedules += 1;
+            if r.value > 0 {
+                racy_clashes += 1;
+            }
+            total.add(&r.stats);
+            evals += 1;
         }
-        total.add(&r.stats);
         // -- determinism: the same seed again --
         let a = under_sim(s ^ 10, || (bbtarget::mutex_counter(5, 3), bbtarget::slot_claim(10, 2, false)));
         let b = under_sim(s ^ 10, || (bbtarget::mutex_counter(5, 3), bbtarget::slot_claim(10, 2, false)));
@@ -180,7 +186,18 @@ fn main() {
             );
         }
         total.add(&a.stats);
-        evals += 12;
+        evals += 11;
+    }
+    let mut extra = 0u64;
+    while racy_schedules < 160 {
+        let r = under_sim(seed ^ 0xACE ^ (extra << 20), || bbtarget::slot_claim(12, 2, false));
+        extra += 1;
+        racy_schedules += 1;
+        if r.value > 0 {
+            racy_clashes += 1;
+        }
+        total.add(&r.stats);
+        evals += 1;
     }
     if racy_clashes == 0 {
         mismatch("slot_claim(load-then-store)", n, format!("no double claim found in {} schedules: the preemption does not reach the window", racy_schedules));
@@ -188,7 +205,7 @@ fn main() {
     // the lock-order inversion, in child processes (a detected deadlock ends the process)
     let exe = std::env::current_exe().expect("current_exe");
     let (mut dead, mut fine, mut other) = (0u64, 0u64, 0u64);
-    for i in 0..n.min(24) {
+    for i in 0..40u64 {
         let st = std::process::Command::new(&exe)
             .args(["child", "lock_order_inversion", &(seed ^ (i * 7919 + 11)).to_string()])
             .stdout(std::process::Stdio::null())
@@ -212,7 +229,7 @@ fn main() {
         bad += other;
     }
     if dead == 0 {
-        println!("SYNC-MISMATCH lock_order_inversion never deadlocked in {} schedules", n.min(24));
+        println!("SYNC-MISMATCH lock_order_inversion never deadlocked in {} schedules", 40);
         bad += 1;
     }
     if fine == 0 {
